@@ -1332,8 +1332,11 @@ impl crate::CascFormat for ArchiveIndex {
     }
 
     fn build(&self) -> Result<Vec<u8>, Box<dyn std::error::Error>> {
+        // The footer-driven writer: key length, offset width and records
+        // per block come from this index's footer (`write_to` assumes the
+        // default 16-byte keys / 4-byte offsets and corrupts other layouts).
         let mut output = Vec::new();
-        self.write_to(&mut Cursor::new(&mut output))
+        ArchiveIndex::build(self, Cursor::new(&mut output))
             .map_err(|e| Box::new(e) as Box<dyn std::error::Error>)?;
         Ok(output)
     }
